@@ -928,7 +928,15 @@ impl Reader {
         let reader_id = this.entity_id();
 
         // See if ACKNACK is needed, and generate one.
-        let missing_seqnums = writer_proxy.missing_seqnums(heartbeat.first_sn, heartbeat.last_sn);
+        // An ACKNACK can request at most 256 sequence numbers, starting from the first
+        // missing one. That is all_ackable_before(), if it is within the advertised range.
+        // Do not enumerate the rest of the advertised range: its size is whatever the
+        // HEARTBEAT claims.
+        let last_sn_to_check = std::cmp::min(
+          heartbeat.last_sn,
+          writer_proxy.all_ackable_before() + SequenceNumber::new(255),
+        );
+        let missing_seqnums = writer_proxy.missing_seqnums(heartbeat.first_sn, last_sn_to_check);
 
         // Interpretation of final flag in RTPS spec
         // 8.4.2.3.1 Readers must respond eventually after receiving a HEARTBEAT with
